@@ -512,6 +512,13 @@ def runModel (ts : List String) : String :=
       let s := if w == "during" then lcgSched ms 5 12 ++ [0, 1, 2, 3, 4] else [0, 1, 2, 3, 4]
       s!"panics {(run (kProg false) s (kInit pcs)).sh.panics} first - called 0"
     | _, _ => "bad-case"
+  | "rmt" :: _ =>
+    -- slow 1: the deadline fires and the caller returns before the resource is unblocked; slow 0: the disposal wins
+    match natAfter "slow" ts with
+    | some sl =>
+      let o := hObs (hFinal true (if sl == 1 then [1, 2, 0, 3, 3] else [0, 3, 3, 2, 1]))
+      s!"timedout {if o.timedOut then 1 else 0} disposed {o.disposed} live {o.live}"
+    | none => "bad-case"
   | "mgr" :: _ =>
     -- two clean handlers: ResourceBase.onClose and the component's own onClose
     match mgrInput ts with
@@ -573,6 +580,13 @@ def runHolds (caseToks obsToks : List String) : String :=
   | "api" :: _ =>
     match obsToks with
     | ["panics", p, "first", _, "called", _] => (match p.toNat? with | some p => holdsK p | none => false)
+    | _ => false
+  | "rmt" :: _ =>
+    match obsToks with
+    | ["timedout", t, "disposed", d, "live", g] =>
+      (match t.toNat?, d.toNat?, g.toNat? with
+       | some t, some d, some g => holdsH ⟨t == 1, d, g⟩
+       | _, _, _ => false)
     | _ => false
   | "mgr" :: _ =>
     match mgrInput caseToks, mgrParse obsToks with
